@@ -219,6 +219,9 @@ pub struct World {
     pub group_blobs: BTreeMap<String, (Vec<u8>, Vec<u8>)>,
     /// the last file announced per group (plain bytes, MIME type)
     pub last_media: BTreeMap<usize, (Vec<u8>, &'static str)>,
+    /// Nostr group ids groups were (or are being) rotated to: (group, new id). The id becomes
+    /// public as soon as the first event tagged with it is on a relay.
+    pub rotations: Vec<(usize, [u8; 32])>,
     /// every third message carries 10-30 KB of canary text (C13: overflow pages)
     pub big_messages: bool,
     pub capture_sidecars: bool,
@@ -310,6 +313,7 @@ impl World {
             count_ticks: false,
             group_blobs: BTreeMap::new(),
             last_media: BTreeMap::new(),
+            rotations: vec![],
             big_messages: false,
             capture_sidecars: false,
             sidecar_captures: vec![],
@@ -1033,6 +1037,7 @@ impl World {
                     4 => {
                         let id = sha2_32(format!("nostr-id:{}:{}:{}", self.seed, step.id, arg).as_bytes());
                         self.sensitive.insert(hex::encode(id));
+                        self.rotations.push((*g, id));
                         up = up.nostr_group_id(id);
                     }
                     5 => {
